@@ -33,7 +33,9 @@ LEVEL_NOTE = (
 )
 RULE = (
     "cases = generated C01-grammar problems (conditional / forall / numeric effects, quantified conditions, optional state "
-    "invariants; goals dropped in 2/3 of the cases so that every executable sequence is a valid plan); per problem all valid "
+    "invariants; goals dropped in 2/3 of the cases so that every executable sequence is a valid plan) plus two directed families "
+    "(forall effects whose condition / value read a fluent of the quantified variable next to writers of those ground fluents; "
+    "fluents with a bounded-int parameter addressed with arithmetic over an int action parameter next to pure readers); per problem all valid "
     "plans of length 2..k (k=4 quick, 5 thorough; DFS over ground instances under vk.ref.seqsem, capped per problem, a "
     "deterministic sample when more) are deordered. evaluations = judged linearisations + judged ordered pairs. "
     "distinct_nontrivial = distinct (problem, plan) whose partial order has >= 2 linearisations."
@@ -52,9 +54,21 @@ BOUNDS = {
 }
 
 
+# directed families (own key range, indices >= DIRECTED_BASE: the generated C01-grammar cases do not depend on them)
+DIRECTED_BASE = 1000000
+N_DIRECTED = {"quick": 120, "thorough": 900}
+FAMILIES = ["forall-dependency", "int-indexed"]
+
+
 def plan(tier, seed):
+    from vk.core import chunk
+
     b = BOUNDS[tier]
-    return simple_plan(PROPERTY, tier, seed, b["n"], b["n"], shards_quick=16, shards_thorough=16)
+    specs = simple_plan(PROPERTY, tier, seed, b["n"], b["n"], shards_quick=8, shards_thorough=16)
+    extra = [f"{PROPERTY}:{seed}:{DIRECTED_BASE + j}" for j in range(N_DIRECTED[tier])]
+    for spec, ch in zip(specs, chunk(extra, len(specs))):
+        spec["cases"] = spec["cases"] + ch
+    return specs
 
 
 def run_shard(spec, res):
@@ -73,6 +87,17 @@ def _build(key):
     from unified_planning.exceptions import UPException
 
     rng = rng_for(key)
+    idx = int(key.rsplit(":", 1)[1])
+    if idx >= DIRECTED_BASE:
+        fam = FAMILIES[(idx - DIRECTED_BASE) % len(FAMILIES)]
+        rec = _forall_dependency_family(rng) if fam == "forall-dependency" else _int_indexed_family(rng)
+        feats = ["directed-" + fam + "-family"]
+        e = _env.fresh_env()
+        try:
+            pb, _ = instantiate_problem(rec, e)
+        except UPException:
+            return rec, feats, None, rng
+        return rec, feats, pb, rng
     if rng.random() < 0.07:
         rec, feats = _invariant_family(rng), ["relational-invariant", "directed-invariant-family"]
     else:
@@ -90,6 +115,106 @@ def _build(key):
     except UPException:
         return rec, feats, None, rng
     return rec, feats, pb, rng
+
+
+def _eff(kind, fluent, value, cond=None, forall=None):
+    return {"kind": kind, "fluent": fluent, "value": value, "cond": cond, "forall": forall or []}
+
+
+def _forall_dependency_family(rng):
+    """Directed family: forall effects whose condition and / or value read a fluent *of the quantified variable*
+    (`forall v. when armed(v): done(v) := true`, `forall v. copy(v) := level(v) + 1`), together with ordinary actions that
+    write ground instances of those fluents (arm(o), fill(o), ...).  No goals: every executable sequence is a valid plan."""
+    T = ["user", "T0"]
+    no = rng.choice([2, 2, 3])
+    objs = [[f"o{i}", T] for i in range(no)]
+    V = ["v", T]
+    v = ["v", "v", T]
+    fl = [
+        {"name": "armed", "type": "bool", "sig": [["x", T]], "default": ["b", False]},
+        {"name": "done", "type": "bool", "sig": [["x", T]], "default": ["b", False]},
+        {"name": "level", "type": ["int", 0, 6], "sig": [["x", T]], "default": ["i", 1]},
+        {"name": "copy", "type": ["int", 0, 20], "sig": [["x", T]], "default": ["i", 0]},
+        {"name": "flag", "type": "bool", "sig": [], "default": ["b", rng.random() < 0.5]},
+    ]
+    init = []
+    for o, _ in objs:
+        if rng.random() < 0.3:
+            init.append([["f", "armed", ["o", o]], ["b", True]])
+        if rng.random() < 0.4:
+            init.append([["f", "level", ["o", o]], ["i", rng.choice([0, 2, 3])]])
+    y = ["p", "y"]
+    writers = [
+        {"name": "arm", "params": [["y", T]], "pre": [], "effects": [_eff("assign", ["f", "armed", y], ["b", True])]},
+        {"name": "disarm", "params": [["y", T]], "pre": [["f", "armed", y]] if rng.random() < 0.5 else [], "effects": [_eff("assign", ["f", "armed", y], ["b", False])]},
+        {"name": "fill", "params": [["y", T]], "pre": [["lt", ["f", "level", y], ["i", 5]]], "effects": [_eff(rng.choice(["inc", "assign"]), ["f", "level", y], ["i", rng.choice([1, 2])])]},
+        {"name": "drain", "params": [["y", T]], "pre": [], "effects": [_eff("assign", ["f", "level", y], ["i", 0])]},
+        {"name": "toggle", "params": [], "pre": [], "effects": [_eff("assign", ["f", "flag"], ["not", ["f", "flag"]])]},
+    ]
+    conds = [
+        ["f", "armed", v],
+        ["not", ["f", "armed", v]],
+        ["gt", ["f", "level", v], ["i", rng.choice([0, 1])]],
+        ["and", ["f", "armed", v], ["f", "flag"]],
+        ["or", ["f", "armed", v], ["ge", ["f", "level", v], ["i", 3]]],
+    ]
+    vals = [["f", "level", v], ["plus", ["f", "level", v], ["i", 1]], ["times", ["f", "level", v], ["i", 2]], ["i", rng.choice([1, 4])]]
+    readers = []
+    for i in range(rng.choice([1, 2, 2])):
+        shape = rng.choice(["cond", "cond", "value", "value", "both", "param"])
+        if shape == "cond":
+            eff = _eff("assign", ["f", "done", v], ["b", rng.random() < 0.8], rng.choice(conds), [V])
+        elif shape == "value":
+            eff = _eff(rng.choice(["assign", "assign", "inc"]), ["f", "copy", v], rng.choice(vals[:3]), None, [V])
+        elif shape == "both":
+            eff = _eff("assign", ["f", "copy", v], rng.choice(vals), rng.choice(conds), [V])
+        else:
+            eff = _eff("assign", ["f", "done", v], ["b", True], ["and", ["f", "armed", v], ["not", ["eq", v, ["p", "z"]]]], [V])
+        a = {"name": f"sweep{i}", "params": [["z", T]] if shape == "param" else [], "pre": [], "effects": [eff]}
+        if rng.random() < 0.3:
+            a["effects"].append(_eff("assign", ["f", "flag"], ["b", rng.random() < 0.5]))
+        readers.append(a)
+    acts = rng.sample(writers, rng.choice([2, 2, 3])) + readers
+    return {"name": "foralldep", "types": [["T0", None]], "objects": objs, "fluents": fl, "actions": acts, "init": init, "goals": [], "invariants": []}
+
+
+def _int_indexed_family(rng):
+    """Directed family: fluents with a bounded-int parameter whose effects / conditions address them with arithmetic over an
+    int action parameter (`cell(i + 1) := true`, `load(i + 1) := 2 * load(i)`, precondition `cell(i - 1)`), together with pure
+    readers of the same ground fluents (`probe(i)`: precondition cell(i); `tally(i)`: total += load(i))."""
+    n = rng.choice([2, 3])  # indexes 0..n
+    I = ["int", 0, n]
+    lo = ["int", 0, n - 1]
+    hi = ["int", 1, n]
+    i = ["p", "i"]
+    ip, im = ["plus", i, ["i", 1]], ["minus", i, ["i", 1]]
+    fl = [
+        {"name": "cell", "type": "bool", "sig": [["k", I]], "default": ["b", False]},
+        {"name": "load", "type": ["int", 0, 40], "sig": [["k", I]], "default": ["i", 1]},
+        {"name": "total", "type": ["int", 0, 400], "sig": [], "default": ["i", 0]},
+        {"name": "seen", "type": "bool", "sig": [], "default": ["b", False]},
+    ]
+    init = [[["f", "cell", ["i", 0]], ["b", True]]]
+    for k in range(1, n + 1):
+        if rng.random() < 0.3:
+            init.append([["f", "cell", ["i", k]], ["b", True]])
+        if rng.random() < 0.4:
+            init.append([["f", "load", ["i", k]], ["i", rng.choice([0, 2, 3])]])
+    pool = [
+        {"name": "shift", "params": [["i", lo]], "pre": [["f", "cell", i]], "effects": [_eff("assign", ["f", "cell", i], ["b", False]), _eff("assign", ["f", "cell", ip], ["b", True])]},
+        {"name": "mark", "params": [["i", lo]], "pre": [], "effects": [_eff("assign", ["f", "cell", ip], ["b", True])]},
+        {"name": "back", "params": [["i", hi]], "pre": [["f", "cell", i]] if rng.random() < 0.5 else [], "effects": [_eff("assign", ["f", "cell", im], ["b", rng.random() < 0.7])]},
+        {"name": "pour", "params": [["i", lo]], "pre": [], "effects": [_eff(rng.choice(["assign", "inc"]), ["f", "load", ip], rng.choice([["times", ["i", 2], ["f", "load", i]], ["f", "load", i], ["plus", ["f", "load", i], ["i", 1]]]))]},
+        {"name": "reset", "params": [["i", hi]], "pre": [], "effects": [_eff("assign", ["f", "load", im], ["i", 0], rng.choice([None, ["f", "cell", i]]))]},
+    ]
+    readers = [
+        {"name": "probe", "params": [["i", I]], "pre": [["f", "cell", i]], "effects": [_eff("assign", ["f", "seen"], ["b", True])]},
+        {"name": "tally", "params": [["i", I]], "pre": [], "effects": [_eff("inc", ["f", "total"], ["f", "load", i])]},
+        {"name": "peek", "params": [["i", lo]], "pre": [["not", ["f", "cell", ip]]], "effects": [_eff("assign", ["f", "seen"], ["b", False])]},
+        {"name": "note", "params": [["i", hi]], "pre": [], "effects": [_eff("assign", ["f", "total"], ["f", "load", im], ["f", "cell", i])]},
+    ]
+    acts = rng.sample(pool, 2) + rng.sample(readers, rng.choice([1, 2]))
+    return {"name": "intidx", "types": [["T0", None]], "objects": [["o0", ["user", "T0"]]], "fluents": fl, "actions": acts, "init": init, "goals": [], "invariants": []}
 
 
 def _invariant_family(rng):
@@ -371,6 +496,13 @@ def judge_plan(pb, rec, feats, space, seq, steps, rw, pid, key, tier, b, res):
             res.mon()
             res.case()
             res.count("pairs_dependent")
+            for (w_, r_) in ((i, j), (j, i)):
+                if sets[w_][1] & sets[r_][2]["forall_reads"]:
+                    res.count("pairs_dependent:write->read-through-forall-variable")
+                if sets[w_][2]["arith_writes"] & (sets[r_][0] - sets[r_][1]):
+                    res.count("pairs_dependent:arithmetic-target-write->pure-read")
+                if sets[w_][1] & sets[r_][2]["arith_reads"]:
+                    res.count("pairs_dependent:write->arithmetic-argument-read")
             if j in reach[i]:
                 continue
             if ww:
@@ -423,6 +555,9 @@ REQUIRED = [
     ("feature:quantified-condition-in-problem", 10),
     ("pairs_dependent", 50),
     ("pairs_independent", 50),
+    ("pairs_dependent:write->read-through-forall-variable", 40),
+    ("pairs_dependent:arithmetic-target-write->pure-read", 40),
+    ("pairs_dependent:write->arithmetic-argument-read", 20),
 ]
 
 
